@@ -20,7 +20,7 @@ exec(open(os.path.join(os.path.dirname(__file__), "manifest_table.py")).read())
 ALL = ["C%02d" % i for i in range(1, 21)]
 m = {
     "version": 1,
-    "setup_cmd": "cd /verif/harness && (cp /repo/go.sum go.sum 2>/dev/null || : > go.sum) && %s go build -tags verif -o ../bin/vcheck ./cmd/vcheck && %s go build -race -tags verif -o ../bin/vcheck-race ./cmd/vcheck && %s go test -tags verif ./oracle/ ./core/ ./wl/ ./sg/ ./props/" % (ENV, ENV, ENV),
+    "setup_cmd": "cd /verif/harness && (cp /repo/go.sum go.sum 2>/dev/null || : > go.sum) && %s go build -tags verif -o ../bin/vcheck ./cmd/vcheck && %s go build -race -tags verif -o ../bin/vcheck-race ./cmd/vcheck && %s go test -tags verif ./oracle/ ./core/ ./wl/ ./sg/ ./props/ && %s go test -tags verif -c -fuzz '^FuzzProp$' -o ../bin/fz.test ./fz" % (ENV, ENV, ENV, ENV),
     "hooks": {
         "guard": "verif",
         "enable": "go build -tags verif (the check wrapper ./check always builds the harness, and goldmark through its replace directive, with -tags verif)",
@@ -30,15 +30,20 @@ m = {
     },
     "engines": [
         {"name": "vcheck", "path": "/verif/harness", "serves_properties": sorted(CHECKS.keys()),
-         "kind_free_text": "Go driver + worker processes: PRNG-determined workloads executed against the real goldmark code under per-property oracles (invariant walkers, reference models in lock-step, metamorphic relations, strict output tokenizer, mprotect write-sanitizer, Go race detector); one OS process per shard, crash slot, isolated replay"},
+         "kind_free_text": "Go driver + worker processes: PRNG-determined workloads executed against the real goldmark code under per-property oracles (invariant walkers, reference models in lock-step, metamorphic relations, strict output tokenizer, mprotect write-sanitizer, Go race detector); one OS process per shard, crash slot, isolated replay; for the input-quantified properties the same per-case oracles also run under Go's coverage-guided fuzzing engine (harness/fz)"},
     ],
     "checks": [],
     "not_applicable": [],
     "notes": "All checks are run as ./check <id> --tier quick|thorough from /verif; they rebuild the harness and goldmark (replace => /repo) from /repo's current working tree with -tags verif on every invocation. Exit 0 held, 1 violation (VIOLATION line), 2 inconclusive (INCONCLUSIVE line; never folded into held). Known findings: /verif/known_findings.json.",
 }
+SERVED = ["C01", "C03", "C04", "C05", "C06", "C08", "C10", "C11", "C12", "C15", "C16", "C17"]
 for pid in ALL:
     if pid in CHECKS:
         c = CHECKS[pid]
+        if pid in SERVED:
+            c["text"] += (" The per-case oracle additionally runs over (a) a committed corpus of 16 000 inputs distilled from coverage-guided campaigns, (b) scalable input families at boundary sizes, "
+                          "and (c) a fixed number of executions of Go's coverage-guided fuzzing engine started from those seeds (150 000 quick, 30 000 000 thorough).")
+            c["technique"] += "; the same oracle under Go's coverage-guided fuzzing engine and over a coverage-distilled corpus"
         m["checks"].append({
             "property_id": pid,
             "quick_cmd": "./check %s --tier quick" % pid,
